@@ -214,7 +214,7 @@ let () =
         statn "e2e.get.leaves" (List.length got);
         if got <> [] then stat "e2e.get.nonempty";
         (* model of the Get filter on the dumped map *)
-        let mres = List.sort compare (List.filter_map (fun (p, v) -> if keep (parse_steps (str_of p)) then Some (str_of p ^ "\000" ^ str_of v) else None) ((if json then get_leaves (view_values hs.raw) (unhex q) else get_leaves_proto (view_values hs.raw) (unhex q) (unhex pfx)))) in
+        let mres = List.sort compare (List.filter_map (fun (p, v) -> if keep (parse_steps (str_of p)) then Some (str_of p ^ "\000" ^ str_of v) else None) (get_leaves (view_values hs.raw) (unhex q))) in
         let pr l = String.concat ", " (List.map (fun s -> String.concat "=" (String.split_on_char '\000' s)) l) in
         if mres <> got then mismatch id (Printf.sprintf "Get %s %S on stored [%s]: impl {%s} model {%s}" enc qt (show (canon_state hs.raw)) (pr got) (pr mres));
         if want <> got then begin
